@@ -262,3 +262,12 @@ prop("C15", "proof",
      ["call sites: render_bash/zsh/fish/elvish are `format!`/`writeln!` code outside both tools (D2, D3 were there)", "fish and elvish quoting rules", "each candidate / shell completer appears exactly once", "that sourcing the whole output only adds candidates (needs a model of compadd/complete/_filedir)"],
      note=VERUS_NOTE, needs_autocomplete=True,
      technique="Verus proof of the real Shell Display impl against `quoted` + inverse lemma against a POSIX single-quote word reader; Kani bounded model checking of the same function (K05)")
+
+# ---- ParseFlag::eval / take_argument verified in the autocomplete configuration as well (D7 found there)
+PROPS["C18"]["not_covered"] = [x for x in PROPS["C18"]["not_covered"] if not x.startswith("the autocomplete text")]
+PROPS["C18"]["claim"] = PROPS["C18"]["explanation"] = PROPS["C18"]["explanation"].replace("(default feature set)", "(both feature configurations)")
+PROPS["C20"]["claim"] = PROPS["C20"]["explanation"] = PROPS["C20"]["explanation"] + (
+    " ParseFlag::eval and ParseArgument::take_argument (gated completion hooks inside) verify against the same flag_rel / arg_rel in both configurations; "
+    "verifying the gated text exposed defect D7 (underflow in touching_last_remove on an empty line in completion mode), now fixed.")
+PROPS["C04"]["claim"] = PROPS["C04"]["explanation"] = PROPS["C04"]["explanation"] + (
+    " touching_last_remove no longer needs a precondition: the empty-line underflow (D7) was a reachable panic and is fixed.")
